@@ -158,6 +158,6 @@ META = {
              'the bound in which the value never returns, every sampling step and both search functions, that the output is exactly the list of changes in '
              'increasing order (a genuine design check of the algorithm), and every completed search is replayed through the real generator functions.'),
     'design_ref': 'DESIGN.md section 5 C29, A.8',
-    'note': 'Trusted: get() closure over the history, output comparison. Bounds: range <= 9 (13 thorough; a second instance with range <= 40, <= 2 changes), <= 3 (4) changes, steps {1,2,3,5,7,60}.',
+    'note': 'Trusted: get() closure over the history, output comparison. Bounds: range <= 9 (13 thorough; a second instance with range <= 40, <= 2 changes), <= 3 (4) changes, steps {1,2,3,5,7,60}; plus 42 (78) dense histories of 17..400 changes over ranges up to 400 levels, judged by the invariants AllChangesReported / Increasing.',
     'technique': 'TLA+ spec + TLC exhaustive model checking; spec-behaviour replay into find_state_changes / find_state_change',
 }
